@@ -596,14 +596,19 @@ Fixpoint is_interleaving_of (full : bool) (obs : list item) (strs : list (list i
   match obs with
   | [] => if full then forallb nilb strs else true
   | x :: obs' =>
+      (* if-then-else, not andb/orb: evaluation must stay lazy under vm_compute *)
       (fix try (pre post : list (list item)) {struct post} : bool :=
          match post with
          | [] => false
          | s :: post' =>
-             (match s with
-              | y :: s' => item_eqb x y && is_interleaving_of full obs' (rev_append pre (s' :: post'))
-              | [] => false
-              end) || try (s :: pre) post'
+             if (match s with
+                 | y :: s' => if item_eqb x y
+                              then is_interleaving_of full obs' (rev_append pre (s' :: post'))
+                              else false
+                 | [] => false
+                 end)
+             then true
+             else try (s :: pre) post'
          end) [] strs
   end.
 
